@@ -107,6 +107,9 @@ pub fn replay(prop: &str, file: &str) -> i32 {
             "C12" => serde_json::from_value::<c12::Case>(case.clone())
                 .map_err(|e| Failure::new("replay.parse", "a C12 case", e.to_string()))
                 .and_then(|c| c12::check_case(&c, &strict).map(|_| ())),
+            "C13" if _part == "backpressure" => serde_json::from_value::<c13::Backpressure>(case.clone())
+                .map_err(|e| Failure::new("replay.parse", "a C13 backpressure case", e.to_string()))
+                .and_then(|c| c13::check_backpressure(&c).map(|_| ())),
             "C13" => serde_json::from_value::<c13::Case>(case.clone())
                 .map_err(|e| Failure::new("replay.parse", "a C13 case", e.to_string()))
                 .and_then(|c| c13::check_case(&c, &strict).map(|_| ())),
